@@ -156,7 +156,7 @@ func (d *DFA) FindAt(cache *DFACache, haystack []byte, at int) int {
 
 	if at == len(haystack) {
 		// At end of input - check if empty string matches
-		if d.matchesEmpty(cache) {
+		if d.matchesEmptyAt(cache, haystack, at) {
 			return at
 		}
 		return -1
@@ -193,7 +193,7 @@ func (d *DFA) SearchAt(cache *DFACache, haystack []byte, at int) int {
 	}
 
 	if at == len(haystack) {
-		if d.matchesEmpty(cache) {
+		if d.matchesEmptyAt(cache, haystack, at) {
 			return at
 		}
 		return -1
@@ -222,7 +222,7 @@ func (d *DFA) SearchAtAnchored(cache *DFACache, haystack []byte, at int) int {
 	}
 
 	if at == len(haystack) {
-		if d.matchesEmpty(cache) {
+		if d.matchesEmptyAt(cache, haystack, at) {
 			return at
 		}
 		return -1
@@ -238,7 +238,7 @@ func (d *DFA) SearchAtAnchored(cache *DFACache, haystack []byte, at int) int {
 	// Get ANCHORED start state (requires match to start exactly at 'at')
 	currentState := d.getStartState(cache, haystack, at, true)
 	if currentState == nil {
-		return d.nfaFallback(haystack, at)
+		return d.nfaFallbackAnchored(haystack, at)
 	}
 
 	lastMatch := -1
@@ -271,14 +271,14 @@ func (d *DFA) SearchAtAnchored(cache *DFACache, haystack []byte, at int) int {
 		case InvalidState:
 			currentState = cache.getState(sid)
 			if currentState == nil {
-				return d.nfaFallback(haystack, at)
+				return d.nfaFallbackAnchored(haystack, at)
 			}
 			nextState, err := d.determinize(cache, currentState, b)
 			if err != nil {
 				if isCacheCleared(err) {
 					currentState = d.getStartState(cache, haystack, pos, true)
 					if currentState == nil {
-						return d.nfaFallback(haystack, at)
+						return d.nfaFallbackAnchored(haystack, at)
 					}
 					sid = currentState.id
 					ft = cache.flatTrans
@@ -286,7 +286,7 @@ func (d *DFA) SearchAtAnchored(cache *DFACache, haystack []byte, at int) int {
 					pos--
 					continue
 				}
-				return d.nfaFallback(haystack, at)
+				return d.nfaFallbackAnchored(haystack, at)
 			}
 			if nextState == nil {
 				return lastMatch
@@ -336,7 +336,7 @@ func (d *DFA) SearchFirstAt(cache *DFACache, haystack []byte, at int) int {
 	}
 
 	if at == len(haystack) {
-		if d.matchesEmpty(cache) {
+		if d.matchesEmptyAt(cache, haystack, at) {
 			return at
 		}
 		return -1
@@ -546,7 +546,7 @@ func (d *DFA) IsMatch(cache *DFACache, haystack []byte) bool {
 func (d *DFA) IsMatchAt(cache *DFACache, haystack []byte, at int) bool {
 	if at >= len(haystack) {
 		if at == len(haystack) {
-			return d.matchesEmpty(cache)
+			return d.matchesEmptyAt(cache, haystack, at)
 		}
 		return false
 	}
@@ -1654,6 +1654,29 @@ func (d *DFA) nfaFallback(haystack []byte, startPos int) int {
 
 	// PikeVM.SearchAt returns absolute positions
 	return end
+}
+
+// nfaFallbackAnchored is the fallback of the ANCHORED search: the match must start at
+// startPos. The leftmost match from startPos starts there iff an anchored match exists,
+// and then has the same leftmost-first end; a match that starts later is no answer
+// (`a` anchored at 0 on "\x00\x00a" is no match, not 3).
+func (d *DFA) nfaFallbackAnchored(haystack []byte, startPos int) int {
+	start, end, matched := d.pikevm.SearchAt(haystack, startPos)
+	if !matched || start != startPos {
+		return -1
+	}
+	return end
+}
+
+// matchesEmptyAt checks if the pattern matches the empty string at the END of a
+// haystack. Unlike matchesEmpty it sees what precedes: `^$` does not match at 1 on
+// "\x00", `\b` matches at the end of "a" only.
+func (d *DFA) matchesEmptyAt(cache *DFACache, haystack []byte, at int) bool {
+	if at == 0 {
+		return d.matchesEmpty(cache)
+	}
+	_, end, matched := d.pikevm.SearchAt(haystack, at)
+	return matched && end == at
 }
 
 // matchesEmpty checks if the pattern matches an empty string
